@@ -518,7 +518,7 @@ def main():
             out["runs"].append(recF)
             confirmed = (holds is False) and not recF["unsatisfied_constraints"] and not recF["model_violates_assumption"]
             out["forged_witness_satisfies_all_constraints"] = not recF["unsatisfied_constraints"]
-        elif clause.startswith("T."):
+        elif clause.split("[")[0] in ("T.shape", "T.cross_config", "T.public_coefficients"):
             sigs = []
             for mdl in req.get("models") or [model]:
                 model.clear()
